@@ -83,7 +83,7 @@ def callee_id(c):
             # a crate-local free function is named `~name`: it can never be mistaken for the std function or method of the
             # same name that a recogniser gives a meaning to (a local `fn min`, `fn insert`, `fn take`, ..)
             'name': ('~' + c['name']) if (c['local'] and not self_ty and not c['trait'] and c['name']) else c['name'],
-            'self': self_adt, 'self_s': self_s, 'local': c['local'] or (c['resolved'] or '').startswith(('crdts::', '<crdts::')),
+            'self': self_adt, 'self_s': self_s, 'local': c['local'] or (c['resolved'] or '').startswith(('crdts::', '<crdts::')) or str(c.get('resolved_uid') or '').startswith('crdts::'),
             'uid': c['resolved_uid'] or c['uid'],
             'self_kind': strip_ty_refs(self_ty).get('k') if self_ty else None,
         }
